@@ -917,7 +917,8 @@ func (v Value) toReflectValue(typ reflect.Type) (reflect.Value, error) {
 			if exported.CanConvert(typ) { // not ConvertibleTo: a slice too short for an array type
 				return exported.Convert(typ), nil
 			}
-			return reflect.Value{}, fmt.Errorf("TypeError: could not convert %v to reflect.Type: %v", exported, typ)
+			// (The type, not the value: fmt never returns on Go data that contains itself.)
+			return reflect.Value{}, fmt.Errorf("TypeError: could not convert %v to reflect.Type: %v", exported.Type(), typ)
 		case valueUndefined, valueNull:
 			// reflect.ValueOf(nil) is the invalid Value, which Set and SetMapIndex reject with a panic.
 			if kind == reflect.Interface {
